@@ -271,6 +271,7 @@ def run(ck):
     okr = len(rets) == 1 and hc.nodes[hc.strip(hc.kids(rets[0])[0])].get('callee') == NS + 'Sha256::finalize' and vname(rets[0]) == 'outer'
     ck.ob('C08.hmac', 'C08.hmac/result', okih and okr, hc.loc(), 'inner_hash = inner.finalize(); the result is outer.finalize()')
     n1_memory(ck, ck.prog(UNITS))
+    _purity(ck, ck.prog(UNITS))
 
 
 def n1_memory(ck, P):
@@ -347,3 +348,13 @@ def n1_memory(ck, P):
     report(ck, 'C08', sites)
     ck.floor('C08.bound', 'memory-access obligations in Sha256::update/finalize/transform and HmacSha256', len([1 for e in sites.values() if e['kind'] == 'bound']), 40)
     ck.floor('C08.loop', 'loops in the SHA-256 / HMAC code', len([1 for e in sites.values() if e['kind'] == 'loop']), 6)
+
+
+def _purity(ck, P):
+    """No state survives a call: the digest / MAC of a message depends on that message (and key) only."""
+    for f in P.fns:
+        if not f.file.endswith(('Sha256.cpp', 'HmacSha256.cpp')) or f.body is None or f.body < 0:
+            continue
+        st_ = [i for i in f.walk() if f.nodes[i]['k'] == 'VarDecl' and f.nodes[i].get('static') and not f.nodes[i].get('const') and not f.nodes[i].get('constexpr')]
+        ck.ob('C08.pure', 'C08.pure/' + f.q.split('::')[-1], not st_, f.loc(st_[0]) if st_ else f.loc(),
+              '%s keeps no mutable static / thread_local state between calls%s' % (f.q.split('::')[-1], (' — found `%s`' % f.nodes[st_[0]].get('n')) if st_ else ''))
